@@ -4,7 +4,7 @@
    of the stream into feeds and every call schedule. *)
 From MptV Require Import Base.Mem Base.Tactics C13.QueueModel Cobs.CobsModel Cobs.DecModel Cobs.EncProofs
   Cobs.EncTheorems Cobs.DecProofs Cobs.DecComplete Cobs.DecCall Cobs.DecHistory Cobs.StreamProofs
-  Cobs.QueueCodec Cobs.WriterHistory Cobs.ReaderHistory.
+  Cobs.QueueCodec Cobs.WriterHistory Cobs.ReaderHistory Cobs.DecLive Cobs.ReaderLive.
 Local Open Scope nat_scope.
 
 (* the frames at the front of a stream are found by cutting at the delimiters *)
@@ -85,4 +85,49 @@ Proof.
   pose proof (writer_history_stream v wbuf woff wops ws Hv Ho Hrun Hc Hs) as HW.
   destruct (spaced_reader_delivers v _ _ HW s [] steps Hi ltac:(rewrite app_nil_r; exact Hun) Hl) as (H1 & H2 & H3).
   cbn zeta. split; [exact H2|]. split; [exact H3|exact H1].
+Qed.
+
+(* LIVENESS at ring level: the framed input queue itself -- mpt_queue_recv with its recovery path,
+   enlarged by mpt_queue_prepare only when a receive produced nothing -- delivers every message
+   whose frame is in the ring, in order, and consumes the ring completely.  [s] is ANY reachable
+   reader state between messages whose unread bytes are the frames of [ms]. *)
+Theorem ring_reader_delivers_all v ms C s n fill : frames_of v ms C ->
+  rh_inv v s -> rh_stop s = false -> dcode (dq_st (rh_d s)) = 0 -> rh_unread s = C -> length C + 17 <= n ->
+  let s' := rh_rounds v n fill (length ms) s in
+  rh_stop s' = false /\ rh_msgs s' = rh_msgs s ++ ms /\ rh_unread s' = [] /\ rh_in s' = rh_in s.
+Proof.
+  intros Hf Hi Est Hc Hu Hn.
+  destruct (ring_rounds_count v ms C Hf s n fill Hi Est Hc Hu Hn) as (Hi' & Est' & Hin' & Hm' & Hc' & Hu').
+  cbn zeta. set (s' := rh_rounds v n fill (length ms) s) in *.
+  split; [assumption|]. split; [|split; assumption].
+  (* what was accepted so far, before and after *)
+  destruct Hi as [(C0 & F0 & Hf0 & Hs0) _]. unfold flat_of in Hs0, Hf0. cbn [hs_stop hs_st hs_buf hs_msgs] in Hf0, Hs0.
+  rewrite Est in Hs0. destruct Hs0 as [HI0 (_ & _ & Hm0)].
+  assert (HF0 : F0 = []).
+  { destruct (dmsg (dq_st (rh_d s))); [apply Hm0|]. rewrite Hc in Hm0. cbn [Nat.eqb] in Hm0. apply Hm0. }
+  subst F0. cbn [app] in HI0. unfold rh_unread in Hu. rewrite Hu in HI0.
+  destruct Hi' as [(C1 & F1 & Hf1 & Hs1) _]. unfold flat_of in Hs1, Hf1. cbn [hs_stop hs_st hs_buf hs_msgs] in Hf1, Hs1.
+  rewrite Est' in Hs1. destruct Hs1 as [HI1 (_ & _ & Hm1)].
+  assert (HF1 : F1 = []).
+  { destruct (dmsg (dq_st (rh_d s'))); [apply Hm1|]. rewrite Hc' in Hm1. cbn [Nat.eqb] in Hm1. apply Hm1. }
+  subst F1. unfold rh_unread in Hu'. rewrite Hu' in HI1. cbn [app] in HI1. rewrite app_nil_r in HI1.
+  pose proof (frames_of_app v _ _ Hf0 _ _ Hf) as Hall.
+  pose proof (frames_prefix v _ _ _ C1 [] Hall Hf1 ltac:(rewrite app_nil_r; congruence)) as Hp.
+  rewrite Hp. rewrite Hm', <- app_length. apply firstn_all.
+Qed.
+
+(* ... composed with the writer: everything a framed output ring produced for complete messages,
+   once in the reader ring, comes out as exactly the messages that were sent *)
+Theorem ring_to_ring_all v wbuf woff wops ws : variant_ok v -> woff < length wbuf ->
+  wh_run v (wh_init wbuf woff) wops = Some ws -> wh_cur ws = [] -> escr (eq_st (wh_e ws)) = 0 ->
+  forall s n fill, rh_inv v s -> rh_stop s = false -> dcode (dq_st (rh_d s)) = 0 ->
+    rh_unread s = wh_sent ws ++ contents (eq_q (wh_e ws)) ->
+    length (wh_sent ws ++ contents (eq_q (wh_e ws))) + 17 <= n ->
+    let s' := rh_rounds v n fill (length (wh_done ws)) s in
+    rh_stop s' = false /\ rh_msgs s' = rh_msgs s ++ wh_done ws /\ rh_unread s' = [].
+Proof.
+  intros Hv Ho Hrun Hc Hs s n fill Hi Est Hcode Hu Hn.
+  pose proof (writer_history_stream v wbuf woff wops ws Hv Ho Hrun Hc Hs) as HW.
+  destruct (ring_reader_delivers_all v _ _ s n fill HW Hi Est Hcode Hu Hn) as (H1 & H2 & H3 & _).
+  cbn zeta. auto.
 Qed.
